@@ -888,10 +888,14 @@ def r8_anchor_targets_exist(ctx, rep):
             continue
         outs, _ = j.expand(tpl)
         ids: Dict[str, List[List[str]]] = {}
+        kinds_of: Dict[str, List[Tuple[Set[str], List[str]]]] = {}      # per anchor: (row kinds the output is emitted for, dyn)
         for o in outs:
             if o.ctx == ("attr", "id") and "<in-test>" not in o.macros and o.sym.endswith(".anchor"):
-                dyn = [c[0] for c in o.conds if c[1] and re.search(r"\.visible\b|\bsummary\b", sym(c[2]))]
+                dyn = [c[0] for c in o.conds if re.search(r"\.visible\b|\bsummary\b", sym(c[2]))
+                       and (c[1] or re.search(r"\bnot\b", sym(c[2])) is None)]
                 ids.setdefault(o.sym, []).append(dyn)
+                ks = {m.group(1) for c in o.conds if c[1] for m in [re.search(r"\.obj == '(\w+)'\)?$", c[0])] if m}
+                kinds_of.setdefault(o.sym, []).append((ks or {"*"}, dyn))
         owned: Set[str] = set()
         for c in PAGE_PAYLOAD_CLASSES[pcls]:
             owned |= all_self_attrs(py, c)
@@ -909,13 +913,14 @@ def r8_anchor_targets_exist(ctx, rep):
                 rep.ob(f"page={tpl} anchor {w}", False, f"no element with id {{{{ {w} }}}} is emitted on {tpl}: links to "
                        f"arguments of contained procedures ([[proc:arg]]) have no target", f"ford/templates/{tpl}")
                 continue
-            ok = any(not dyn for dyn in recs)
+            # every kind of row that emits the id at all must also emit it unconditionally somewhere
+            row_kinds = sorted({k for ks, _ in kinds_of[w] for k in ks})
+            ok = all(any(k in ks and not dyn for ks, dyn in kinds_of[w]) for k in row_kinds)
             if ok and w.endswith(".args[*].anchor"):
-                arg_kinds.setdefault(tpl, set())
-                for o in outs:
-                    if o.ctx == ("attr", "id") and o.sym == w and "<in-test>" not in o.macros:
-                        ks = {m.group(1) for c in o.conds if c[1] for m in [re.search(r"\.obj == '(\w+)'\)?$", c[0])] if m}
-                        arg_kinds[tpl] |= ks or {"*"}
+                arg_kinds.setdefault(tpl, set()).update(row_kinds)
+                recs = [dyn for _ks, dyn in kinds_of[w]]
+            if not ok:
+                recs = [dyn for ks, dyn in kinds_of[w] if dyn] or recs
             rep.ob(f"page={tpl} anchor {w}", ok,
                    "id emitted unconditionally for every member" if ok else
                    f"the id {{{{ {w} }}}} is only emitted under {recs[0]}: for members where that run-time flag is set the "
